@@ -70,7 +70,7 @@ def _width(rng, acc, start, s, fast):
 
 def generate(ctx):
     rng = ctx.rng
-    ks = ctx.pick([1, 2, 2, 3], [1, 2, 2, 3, 3, 4])
+    ks = ctx.pick([1, 2, 2, 3, 4], [1, 2, 2, 3, 3, 4, 5])
     for gi in range(ctx.pick(600, 6000)):
         k = rng.choice(ks)
         fast = rng.random() < 0.4
